@@ -288,6 +288,7 @@ type c12World struct {
 	terminal      map[int]bool
 	discardSeen   bool
 	dispDone      int
+	lateAttempts  []string
 	hang          string
 }
 
@@ -328,8 +329,15 @@ func (w *c12World) grant(gs ...*c12sched.G) {
 			w.discardSeen = true
 		}
 	}
-	if w.clo != nil && w.clo.Finished {
+	if w.clo != nil && w.clo.Finished && !w.closeReturned {
 		w.closeReturned = true
+		// Close returns only after every in-flight attempt has finished (nothing of the old process
+		// touches the spool once the restart may begin)
+		for i, g := range w.thr {
+			if w.kind[i] == "a" && !g.Finished {
+				w.lateAttempts = append(w.lateAttempts, fmt.Sprintf("attempt goroutine %d (message %d) still at %s", i, w.msgOf[i], w.pc(g)))
+			}
+		}
 	}
 }
 
@@ -462,7 +470,24 @@ func (w *c12World) do(t c12Tok) {
 			w.grant(g)
 			if w.pc(g) == "release" || g.Finished {
 				w.terminal[w.msgOf[t.i]] = true
+				if t.c == 0 {
+					w.out.Stat("sched.deliver.delivered")
+				} else {
+					w.out.Stat("sched.deliver.max-tries-reached")
+				}
+			} else {
+				w.out.Stat("sched.deliver.retry")
 			}
+		case "check":
+			w.grant(g)
+			if w.pc(g) == "lock" {
+				w.out.Stat("sched.add.stopped-check-passed")
+			} else {
+				w.out.Stat("sched.add.dropped-after-stop")
+			}
+		case "send":
+			w.grant(g)
+			w.out.Stat("sched.add.released-by-close")
 		case "push":
 			w.pushes[w.msgOf[t.i]]++
 			w.grant(g)
@@ -497,7 +522,9 @@ func (w *c12World) do(t c12Tok) {
 		w.ctl.LiveTimer().Fire()
 		w.grant(w.tick)
 	case "ku":
+		before := w.pc(w.tick)
 		w.grant(w.thr[t.i], w.tick)
+		w.out.Stat("sched.update." + before + "->" + w.pc(w.tick))
 	case "ks":
 		w.grant(w.clo, w.tick)
 	}
@@ -710,21 +737,30 @@ func (w *c12World) candidates(r *vh.Rng) []c12Tok {
 		c = append(c, c12Tok{kind: "t", i: i, c: ch})
 		c = append(c, c12Tok{kind: "ku", i: i})
 	}
+	if r.Chance(5) {
+		c = append(c, c12Tok{kind: "t", i: len(w.thr) + r.Intn(2)}, c12Tok{kind: "ku", i: len(w.thr)})
+	}
 	c = append(c, c12Tok{kind: "c"}, c12Tok{kind: "k"}, c12Tok{kind: "k"}, c12Tok{kind: "kt"}, c12Tok{kind: "ks"})
-	if r.Chance(30) {
+	if r.Chance(12) {
 		c = append(c, c12Tok{kind: "a", c: 1 + r.Intn(4)})
 	}
 	return c
 }
 
 // c12RunControlled runs one scenario.  sched == nil: the schedule is generated on the fly.
-func c12RunControlled(out *vh.Out, scn c12Scn, sched []c12Tok, r *vh.Rng, steps int, closeAfter int) {
+func c12RunControlled(out *vh.Out, scn c12Scn, sched []c12Tok, r *vh.Rng, steps int, closeAfter int, closeInflight int) {
 	w := c12Setup(out, scn)
 	defer os.RemoveAll(w.dir)
 	defer w.ctl.Abandon()
 	var bits strings.Builder
 	var done []string
+	var pcs map[*c12sched.G]string
+	pcBefore := func(g *c12sched.G) string { return pcs[g] }
 	exec := func(t c12Tok) bool {
+		pcs = map[*c12sched.G]string{w.tick: w.pc(w.tick), w.clo: w.pc(w.clo)}
+		for _, g := range w.thr {
+			pcs[g] = w.pc(g)
+		}
 		en := w.can(t)
 		if en {
 			w.do(t)
@@ -733,7 +769,20 @@ func c12RunControlled(out *vh.Out, scn c12Scn, sched []c12Tok, r *vh.Rng, steps 
 			bits.WriteByte('0')
 		}
 		done = append(done, t.String())
-		out.Stat("tok." + t.kind + map[bool]string{true: ".enabled", false: ".blocked"}[en])
+		what := t.kind
+		switch t.kind {
+		case "t":
+			if t.i < len(w.thr) {
+				what = "t." + pcBefore(w.thr[t.i])
+			} else {
+				what = "t.no-such-goroutine"
+			}
+		case "k":
+			what = "k." + pcBefore(w.tick)
+		case "c":
+			what = "c." + pcBefore(w.clo)
+		}
+		out.Stat("tok." + what + map[bool]string{true: ".enabled", false: ".blocked"}[en])
 		return en
 	}
 	inflightAtStop := -1
@@ -752,7 +801,7 @@ func c12RunControlled(out *vh.Out, scn c12Scn, sched []c12Tok, r *vh.Rng, steps 
 			if r.Chance(88) {
 				var en []c12Tok
 				for _, c := range cands {
-					if c.kind == "c" && n < closeAfter {
+					if c.kind == "c" && w.pc(w.clo) == "setStopped" && (n < closeAfter || (w.wg < closeInflight && n < steps-25)) {
 						continue
 					}
 					if w.can(c) {
@@ -760,13 +809,21 @@ func c12RunControlled(out *vh.Out, scn c12Scn, sched []c12Tok, r *vh.Rng, steps 
 					}
 				}
 				if len(en) == 0 {
-					t = c12Tok{kind: "a", c: 1}
+					// quiescent: only the clock can enable something (a pending timer), else stop here
+					tm := w.ctl.LiveTimer()
+					if w.pc(w.clo) == "setStopped" && (r.Chance(50) || w.pc(w.tick) != "waitTimer") {
+						t = c12Tok{kind: "c"} // held back so far
+					} else if w.pc(w.tick) != "waitTimer" || tm == nil || tm.Deadline <= w.ctl.VNow() {
+						break
+					} else {
+						t = c12Tok{kind: "a", c: int(tm.Deadline-w.ctl.VNow()) - r.Intn(2)}
+					}
 				} else {
 					t = en[r.Intn(len(en))]
 				}
 			} else {
 				t = cands[r.Intn(len(cands))]
-				if t.kind == "c" && n < closeAfter {
+				if t.kind == "c" && w.pc(w.clo) == "setStopped" && (n < closeAfter || (w.wg < closeInflight && n < steps-25)) {
 					t = c12Tok{kind: "k"}
 				}
 			}
@@ -886,6 +943,9 @@ func c12Monitor(w *c12World, op string) {
 	for _, v := range w.tgt.viol {
 		out.Violation("C12/concurrent-attempts", op, v)
 	}
+	for _, v := range w.lateAttempts {
+		out.Violation("C12/attempt-running-after-close", op, "Queue.Close returned but "+v)
+	}
 	// spool after shutdown / quiescence
 	sp := c12ReadSpool(w.dir, len(w.scn.times))
 	for i, s := range sp {
@@ -932,7 +992,7 @@ func TestVerifC12Sched(t *testing.T) {
 			out.Note("unparsable op: " + op)
 			return
 		}
-		c12RunControlled(out, scn, sched, nil, 0, 0)
+		c12RunControlled(out, scn, sched, nil, 0, 0, 0)
 	}
 	if ops := vh.Replay(); ops != nil {
 		for _, op := range ops {
@@ -952,6 +1012,7 @@ func TestVerifC12Sched(t *testing.T) {
 		seed       uint64
 		steps      int
 		closeAfter int
+		inflight   int
 	}
 	jobs := make(chan job, 64)
 	var wg sync.WaitGroup
@@ -960,7 +1021,7 @@ func TestVerifC12Sched(t *testing.T) {
 		go func() {
 			defer wg.Done()
 			for j := range jobs {
-				c12RunControlled(out, j.scn, nil, vh.NewRng(j.seed), j.steps, j.closeAfter)
+				c12RunControlled(out, j.scn, nil, vh.NewRng(j.seed), j.steps, j.closeAfter, j.inflight)
 			}
 		}()
 	}
@@ -980,7 +1041,12 @@ func TestVerifC12Sched(t *testing.T) {
 		if r.Chance(70) {
 			closeAfter = r.Intn(steps)
 		}
-		jobs <- job{scn, r.Next(), steps, closeAfter}
+		inflight := 0
+		if r.Chance(60) {
+			inflight = 1 + r.Intn(3)
+			steps += 30
+		}
+		jobs <- job{scn, r.Next(), steps, closeAfter, inflight}
 	}
 	close(jobs)
 	wg.Wait()
@@ -1042,14 +1108,11 @@ func c12RunFree(out *vh.Out, seed uint64) {
 		close(started)
 	})
 	<-started
-	var pwg sync.WaitGroup
 	var gs []*c12sched.G
 	for i := 0; i < np; i++ {
 		i := i
-		pwg.Add(1)
 		d := time.Duration(r.Intn(1500)) * time.Microsecond
 		g, _ := ctl.Spawn("producer", func() {
-			defer pwg.Done()
 			time.Sleep(d)
 			qd := c12Spool(q, i)
 			if err := qd.Commit(context.Background()); err != nil {
@@ -1059,55 +1122,52 @@ func c12RunFree(out *vh.Out, seed uint64) {
 		gs = append(gs, g)
 	}
 	closeDelay := time.Duration(r.Intn(6000)) * time.Microsecond
-	closed := make(chan struct{})
 	cg, _ := ctl.Spawn("closer", func() {
-		defer close(closed)
 		time.Sleep(closeDelay)
 		q.Close()
 	})
-	hung := false
-	select {
-	case <-closed:
-	case <-time.After(20 * time.Second):
-		hung = true
-		out.Violation("C12/close-hang", op, "Queue.Close did not return within 20s")
-	}
-	pdone := make(chan struct{})
-	go func() { pwg.Wait(); close(pdone) }()
-	select {
-	case <-pdone:
-	case <-time.After(20 * time.Second):
-		hung = true
-		out.Violation("C12/goroutine-stuck", op, "a producer's Commit did not return within 20s of the shutdown")
-	}
-	if hung {
+	if !cg.Wait(8 * time.Second) {
+		out.Violation("C12/free-run/close-hang", op, "Queue.Close did not return within 8s")
 		return
+	}
+	tgt.mu.Lock()
+	for id, n := range tgt.running {
+		if n > 0 {
+			out.Violation("C12/free-run/attempt-running-after-close", op, "Queue.Close returned while a delivery attempt of message "+id+" was in progress")
+		}
+	}
+	tgt.mu.Unlock()
+	for _, g := range gs {
+		if !g.Wait(8 * time.Second) {
+			out.Violation("C12/free-run/goroutine-stuck", op, "a producer's Commit did not return within 8s of the shutdown")
+			return
+		}
 	}
 	// the quarantine rename happens after deliveryWg.Done: give a late one the chance to show
 	time.Sleep(3 * time.Millisecond)
 	for _, g := range append(gs, cg) {
-		if g.Panic != nil {
-			out.Violation("C12/panic", op, fmt.Sprintf("%s panicked: %v", g.Name, g.Panic))
+		if _, pv := g.Result(); pv != nil {
+			out.Violation("C12/free-run/panic", op, fmt.Sprintf("%s panicked: %v", g.Name, pv))
 		}
 	}
 	for _, g := range ctl.All() {
-		if g.Finished && g.Panic != nil && strings.HasPrefix(g.Name, "Queue.dispatch") {
-			out.Violation("C12/panic", op, fmt.Sprintf("dispatch goroutine died: %v", g.Panic))
+		if fin, pv := g.Result(); fin && pv != nil && strings.HasPrefix(g.Name, "Queue.dispatch") {
+			out.Violation("C12/free-run/panic", op, fmt.Sprintf("dispatch goroutine died: %v", pv))
 		}
 	}
 	ctl.Abandon()
 	if ctl.Count("Queue.discardBroken/entry#1") > 0 {
-		out.Violation("C12/panic", op, "a panic was recovered in the dispatch goroutine (discardBroken entered)")
+		out.Violation("C12/free-run/panic", op, "a panic was recovered in the dispatch goroutine (discardBroken entered)")
 	}
 	dmu.Lock()
 	if early > 0 {
-		out.Violation("C12/early-dispatch", op, fmt.Sprintf("%d dispatches before the entry's time", early))
+		out.Violation("C12/free-run/early-dispatch", op, fmt.Sprintf("%d dispatches before the entry's time", early))
 	}
 	out.Stat(fmt.Sprintf("free.dispatches-before-close.%d", min(dispN, 9)))
 	dmu.Unlock()
 	tgt.mu.Lock()
 	for _, v := range tgt.viol {
-		out.Violation("C12/concurrent-attempts", op, v)
+		out.Violation("C12/free-run/concurrent-attempts", op, v)
 	}
 	okBefore := map[string]int{}
 	for k, v := range tgt.okCount {
@@ -1123,7 +1183,7 @@ func c12RunFree(out *vh.Out, seed uint64) {
 	for i, s := range sp {
 		id := c12MsgID(i)
 		if s.broken {
-			out.Violation("C12/meta-broken", op, fmt.Sprintf("message %d was renamed to .meta_broken", i))
+			out.Violation("C12/free-run/meta-broken", op, fmt.Sprintf("message %d was renamed to .meta_broken", i))
 			continue
 		}
 		// terminal: delivered, or failed for good (temporary failure on the last allowed attempt)
@@ -1138,16 +1198,16 @@ func c12RunFree(out *vh.Out, seed uint64) {
 			}
 		}
 		if okBefore[id] > 1 {
-			out.Violation("C12/duplicate-dispatch", op, fmt.Sprintf("message %d delivered %d times", i, okBefore[id]))
+			out.Violation("C12/free-run/duplicate-dispatch", op, fmt.Sprintf("message %d delivered %d times", i, okBefore[id]))
 		}
 		if terminal {
 			if s.meta {
-				out.Violation("C12/terminal-not-removed", op, fmt.Sprintf("message %d", i))
+				out.Violation("C12/free-run/terminal-not-removed", op, fmt.Sprintf("message %d", i))
 			}
 			continue
 		}
 		if !(s.meta && s.header && s.body) {
-			out.Violation("C12/removed-without-outcome", op, fmt.Sprintf("message %d has no terminal outcome (attempts %d, delivered %d) but its spool entry is incomplete (meta=%v header=%v body=%v)", i, attempts[id], okBefore[id], s.meta, s.header, s.body))
+			out.Violation("C12/free-run/removed-without-outcome", op, fmt.Sprintf("message %d has no terminal outcome (attempts %d, delivered %d) but its spool entry is incomplete (meta=%v header=%v body=%v)", i, attempts[id], okBefore[id], s.meta, s.header, s.body))
 			continue
 		}
 		left++
@@ -1159,13 +1219,19 @@ func c12RunFree(out *vh.Out, seed uint64) {
 	tgt2.plan = map[string][]int{}
 	q2 := c12NewQueue(dir, tgt2, 5)
 	if err := q2.start(2); err != nil {
-		out.Violation("C12/restart-failed", op, err.Error())
+		out.Violation("C12/free-run/restart-failed", op, err.Error())
 		return
 	}
 	deadline := time.Now().Add(20 * time.Second)
 	for time.Now().Before(deadline) {
 		ents, _ := os.ReadDir(dir)
-		if len(ents) == 0 {
+		live := 0
+		for _, e := range ents {
+			if strings.HasSuffix(e.Name(), ".meta") { // a quarantined entry leaves its header and body behind
+				live++
+			}
+		}
+		if live == 0 {
 			break
 		}
 		time.Sleep(200 * time.Microsecond)
@@ -1180,9 +1246,9 @@ func c12RunFree(out *vh.Out, seed uint64) {
 			want = 1
 		}
 		if tgt2.okCount[id] != want {
-			sig := "C12/not-recovered-after-restart"
+			sig := "C12/free-run/not-recovered-after-restart"
 			if tgt2.okCount[id] > want {
-				sig = "C12/duplicate-dispatch"
+				sig = "C12/free-run/duplicate-dispatch"
 			}
 			out.Violation(sig, op, fmt.Sprintf("message %d: delivered %d times after the restart, expected %d (delivered %d times before)", i, tgt2.okCount[id], want, okBefore[id]))
 		}
@@ -1194,7 +1260,7 @@ func c12RunFree(out *vh.Out, seed uint64) {
 		}
 		out.Stat("free.spool-not-empty-after-restart")
 		if len(names) > 0 && !strings.Contains(strings.Join(names, ","), "meta_broken") {
-			out.Violation("C12/not-recovered-after-restart", op, "left in the spool: "+strings.Join(names, ","))
+			out.Violation("C12/free-run/not-recovered-after-restart", op, "left in the spool: "+strings.Join(names, ","))
 		}
 	}
 }
